@@ -81,6 +81,8 @@ type Explorer struct {
 	SMTLog     string
 	Seed       []Decision // if set, exploration starts from this decision prefix (replay of one path)
 	TimeoutMs  int
+	CrossKind  string // second solver implementation ("" = none)
+	CrossEvery int    // re-decide every n-th unsat assertion verdict with it
 
 	mu      sync.Mutex
 	work    [][]Decision
@@ -98,6 +100,8 @@ func (x *Explorer) expired() bool {
 
 type worker struct {
 	s          *Solver
+	cross      *Solver // second solver implementation for cross-checking unsat verdicts (nil = off)
+	nUnsat     int
 	levelStart []int
 	count      int
 	prevTrace  []Decision
@@ -403,6 +407,24 @@ func (p *Path) Assert(id string, c *Term) {
 		return
 	}
 	r, m := p.model(Not(c))
+	if r == "unsat" && p.w.cross != nil {
+		// diff a second solver implementation on a sample of the verdicts the claim rests on
+		p.w.nUnsat++
+		if x.CrossEvery > 0 && p.w.nUnsat%x.CrossEvery == 0 {
+			r2 := p.w.s.CrossCheck(p.w.cross, Not(c))
+			x.mu.Lock()
+			switch r2 {
+			case "unsat":
+				x.res.Notes["unsat verdicts re-decided by "+x.CrossKind+": agree"]++
+			case "sat":
+				x.res.Notes["unsat verdicts re-decided by "+x.CrossKind+": DISAGREE (counted as undecided)"]++
+				r = "unknown"
+			default:
+				x.res.Notes["unsat verdicts re-decided by "+x.CrossKind+": second solver undecided"]++
+			}
+			x.mu.Unlock()
+		}
+	}
 	x.mu.Lock()
 	switch r {
 	case "unsat":
@@ -563,6 +585,11 @@ func (x *Explorer) Run() *Result {
 			s.Log = f
 		}
 		workers[i] = &worker{s: s}
+		if x.CrossKind != "" && x.CrossKind != x.SolverKind && x.CrossEvery > 0 {
+			if cs, err := NewSolver(x.CrossKind, x.TimeoutMs); err == nil {
+				workers[i].cross = cs
+			}
+		}
 	}
 	for i := 0; i < x.Workers; i++ {
 		wg.Add(1)
@@ -580,6 +607,9 @@ func (x *Explorer) Run() *Result {
 		x.res.SolverErr += w.s.Errors
 		x.res.SolveTime += w.s.SolveTime
 		w.s.Close()
+		if w.cross != nil {
+			w.cross.Close()
+		}
 	}
 	x.res.Wall = time.Since(start)
 	return x.res
